@@ -31,6 +31,8 @@ Readings adopted:
     denote the value that was passed.  Representation-only coercions that lose nothing (int 3 for float -> 3.0,
     tuple for list, "RED" for an Enum parameter -> Color.RED, the serialized bytes for a dataclass parameter,
     list for frozenset, pairs for dict with dict() semantics) are not violations.
+  * an instance (or serialized bytes) of a different dataclass passed for a dataclass parameter is an ill-typed call; that
+    deserialize_from_batch accepts it when every missing field has a default (schema evolution) is tallied, not flagged.
   * sets (`frozenset`) only: `set[T]` is refused by _infer_arrow_type at class-definition time.
   * equality of floats is bit equality (NaN payload, signed zero).
 """
@@ -239,6 +241,7 @@ def type_universe(ctx: Any) -> list[tuple]:
         comp += [("opt", s), ("list", s), ("set", s) if s[0] != "bytes" or True else s, ("map", ("str",), s), ("list", ("opt", s))]
     comp += [("opt", ("enum", 0)), ("opt", ("enum", 1)), ("opt", ("data", 0)), ("opt", ("data", 1)), ("opt", ("dec", 10, 2))]
     always = [("opt", ("data", 2)), ("opt", ("data", 3)), ("opt", ("enum", 2)), ("opt", ("enum", 3))]  # enums whose values are sibling names
+    always += [("opt", ("data", 4)), ("opt", ("data", 5))]  # Optional dataclass fields with non-None defaults, explicitly None
     comp += [("map", ("int", True, 64), ("str",)), ("map", ("bytes",), ("float", 64)), ("map", ("str",), ("opt", ("int", True, 64))), ("map", ("date",), ("bool",))]
     comp += [("list", ("list", ("int", True, 64))), ("list", ("list", ("list", ("str",)))), ("opt", ("list", ("opt", ("float", 32)))), ("opt", ("map", ("str",), ("int", True, 8))),
              ("opt", ("set", ("str",))), ("map", ("str",), ("list", ("int", True, 64))), ("set", ("opt", ("int", True, 64))), ("list", ("dec", 10, 2))]
@@ -357,13 +360,22 @@ def run(ctx: Any) -> None:
                 ctx.violation("well-typed-value-rejected-" + shape(t), f"a value of the declared type is refused ({o.where}: {o.err})", repl)
             else:
                 if not (o.seen and H.exact_eq(v, o.seen[0])):
-                    sfx = "dataclass-enum" if o.seen and H.enum_field_differs(v, o.seen[0]) else shape(t)
+                    sfx = ("dataclass-none-field-defaulted" if o.seen and H.none_field_defaulted(v, o.seen[0])
+                           else "dataclass-enum" if o.seen and H.enum_field_differs(v, o.seen[0]) else shape(t))
                     ctx.violation("kwargs-differ-" + sfx, "the implementation received a different value", repl)
                 if not H.exact_eq(v, o.result):
-                    sfx = "dataclass-enum" if H.enum_field_differs(v, o.result) else shape(t)
+                    sfx = "dataclass-none-field-defaulted" if H.none_field_defaulted(v, o.result) else "dataclass-enum" if H.enum_field_differs(v, o.result) else shape(t)
                     ctx.violation("echo-differs-" + sfx, "the echoed value differs from the one passed", repl)
             return
         # not a value of the declared type (or not representable by it): rejected, or the same value arrives
+        core = t[1] if t[0] == "opt" else t
+        if core[0] == "data" and (isinstance(v, (bytes, bytearray)) or (isinstance(v, H.ArrowSerializableDataclass) and type(v) is not H.DATAS[core[1]])):
+            # an instance (or the serialized bytes) of ANOTHER dataclass given for a dataclass parameter: deserialize_from_batch
+            # fills columns the batch lacks from field defaults (schema evolution, by design), so a class whose fields all have
+            # defaults accepts it as a default-filled instance.  An ill-typed call outside this property's reading: tallied only.
+            if o.ok and not H.same_value(v, o.result, t):
+                ctx.tally("outside-statement", f"foreign-dataclass-for-{shape(core)}:accepted-with-field-defaults")
+            return
         for got, what in ([(o.seen[0], "kwargs")] if o.seen else []) + ([(o.result, "result")] if o.ok else []):
             if not H.same_value(v, got, t):
                 key = lossy_class(t, v) or f"silent-change-{shape(t)}-{type(v).__name__}"
